@@ -205,7 +205,8 @@ def run(ctx):
     ex = EP.run_property(ctx, EXEC_MASK, exec_monitor, 'lifecycle', [
         ('G-exec', 150, 3000, dict(p_bad=0.5)),
         ('G-exec-reassign', 80, 1500, dict(p_bad=1.0, bad_kinds=['asg-busy', 'asg-busy', 'asg-order', 'asg-parent'])),
-        ('G-exec-twins', 30, 500, dict(twins=True))])
+        ('G-exec-twins', 30, 500, dict(twins=True)),
+        ('G-exec-overlap', 30, 500, dict(overlap=True))])
     cases += ex['cases']
     hits += ex['hits']
     dist['executor'] = ex['dist']
